@@ -132,10 +132,15 @@ def check_state(u, model, hist, arities, pool2):
                     exp = M.subscriptions_expected(model, u, ri, specs, p)
                     what = 'history [%s]: reg%d.subscriptions((%s), %s)' % (
                         hist, ri, ', '.join(u.lookup_names()[c] for c in combo), 'P%d' % pi if pi is not None else 'None')
+                    if p is not None:
+                        reg.lookupAll(specs, p)      # the neighbouring collector, same key: its cache must not be the one subscriptions() reads
                     got = reg.subscriptions(specs, p)
                     err = M.check_subscriptions(got, exp, what)
                     if err:
                         raise Violation(err, signature='C07:' + ('multiset' if 'multiset' in err else 'order'))
+                    again = reg.subscriptions(specs, p)
+                    if len(again) != len(got) or any(x is not y for x, y in zip(again, got)):
+                        raise Violation('%s: a repeated call returns %r after %r' % (what, again, got), signature='C07:repeat')
         # bookkeeping views: allSubscriptions and subscribed
         got = [(tuple(id(x) for x in req), id(prov) if prov is not None else 0, id(v))
                for (req, prov, v) in reg.allSubscriptions()]
